@@ -15,7 +15,7 @@ use crate::rng::{LogHash, Rng};
 use crate::scen::*;
 use crate::typist::*;
 use crate::world::*;
-use pc_keyboard::{DecodedKey, EventDecoder, KeyEvent, KeyState, Keyboard, KeyboardLayout, Ps2Decoder, ScancodeSet};
+use pc_keyboard::{DecodedKey, EventDecoder, KeyCode, KeyEvent, KeyState, Keyboard, KeyboardLayout, Ps2Decoder, ScancodeSet};
 use std::collections::VecDeque;
 
 const US: u64 = 1_000;
@@ -842,6 +842,38 @@ pub struct Chaos;
 
 const MAP_CELLS: usize = NLAYOUT_OBJS * NKEYS * 512 * 2;
 
+/// Ordinary modifier events that take the (model) record from `cur` to `target`: NumLock first
+/// (its press only counts while the hidden Ctrl is up), CapsLock, then the seven held flags.
+fn drive_mods(ops: &mut Vec<TOp>, t: u64, cur: &mut pc_keyboard::Modifiers, target: &pc_keyboard::Modifiers) {
+    let mut ev = |ops: &mut Vec<TOp>, cur: &mut pc_keyboard::Modifiers, k: KeyCode, st: u8| {
+        ops.push(TOp { t, op: Op::Ev { key: kidx(k) as u8, st } });
+        ref_mods_step(cur, k, STATES[st as usize]);
+    };
+    if cur.numlock != target.numlock {
+        if cur.rctrl2 {
+            ev(ops, cur, KeyCode::RControl2, 0);
+        }
+        ev(ops, cur, KeyCode::NumpadLock, 1);
+    }
+    if cur.capslock != target.capslock {
+        ev(ops, cur, KeyCode::CapsLock, 1);
+    }
+    let pairs = [
+        (cur.lshift, target.lshift, KeyCode::LShift),
+        (cur.rshift, target.rshift, KeyCode::RShift),
+        (cur.lctrl, target.lctrl, KeyCode::LControl),
+        (cur.rctrl, target.rctrl, KeyCode::RControl),
+        (cur.lalt, target.lalt, KeyCode::LAlt),
+        (cur.ralt, target.ralt, KeyCode::RAltGr),
+        (cur.rctrl2, target.rctrl2, KeyCode::RControl2),
+    ];
+    for (have, want, k) in pairs {
+        if have != want {
+            ev(ops, cur, k, want as u8);
+        }
+    }
+}
+
 impl Scenario for Chaos {
     fn id(&self) -> &'static str {
         "C08"
@@ -862,6 +894,7 @@ impl Scenario for Chaos {
         cov.declare("set1_model_ctx_x_byte", 768);
         cov.declare("set2_model_ctx_x_byte", 1536);
         cov.declare("event_key_x_state", NKEYS * 3);
+        cov.declare("event_stage_mods_x_mode_x_key_x_state", 512 * 2 * NKEYS * 3);
         cov.probe_declare("more_than_16_bits_without_clear");
         cov.probe_declare("word_with_bits_above_10");
         cov.probe_declare("map_keycode_with_impossible_modifier_combination");
@@ -876,6 +909,36 @@ impl Scenario for Chaos {
         let n = marathon(run, rng.range(20, if tier == Tier::Quick { 200 } else { 400 }) as usize);
         let mut ops: Vec<TOp> = Vec::new();
         let mut t = 0u64;
+        // the event stage in every reachable condition: this run's slice of the cube (modifier
+        // record 512 x Ctrl mode 2 x key 124 x key state 3), on a fresh EventDecoder or Keyboard -
+        // the record is driven to the target by ordinary modifier events, and re-established
+        // after every event that moved it
+        {
+            let cube = (run % 1024) as usize;
+            let quarter = ((run / 1024) % 4) as usize;
+            let eobj = 3 + ((run / 4096) % 3) as u8;
+            let target = mods_from_index(cube / 2);
+            ops.push(TOp { t, op: Op::Obj { id: eobj } });
+            ops.push(TOp { t, op: Op::SetCtrl { map: cube % 2 == 1 } });
+            let mut cur = initial_mods();
+            for key in quarter * (NKEYS / 4)..((quarter + 1) * (NKEYS / 4)).min(NKEYS) {
+                for st in [1u8, 0, 2] {
+                    drive_mods(&mut ops, t, &mut cur, &target);
+                    ops.push(TOp { t, op: Op::Ev { key: key as u8, st } });
+                    ref_mods_step(&mut cur, ALL_KEYS[key], STATES[st as usize]);
+                }
+            }
+            // keys beyond a multiple of four (none today) ride with the last quarter
+            if quarter == 3 {
+                for key in 4 * (NKEYS / 4)..NKEYS {
+                    for st in [1u8, 0, 2] {
+                        drive_mods(&mut ops, t, &mut cur, &target);
+                        ops.push(TOp { t, op: Op::Ev { key: key as u8, st } });
+                        ref_mods_step(&mut cur, ALL_KEYS[key], STATES[st as usize]);
+                    }
+                }
+            }
+        }
         let mut obj = rng.below(6) as u8;
         ops.push(TOp { t, op: Op::Obj { id: obj } });
         for _ in 0..n {
@@ -1029,6 +1092,14 @@ impl Scenario for Chaos {
         let mut obj = 0usize;
         let mut bits_since_clear = 0usize;
         let mut last_t = 0;
+        // model side only (coverage): the modifier record and Ctrl mode of the three event stages
+        let mut refm = [initial_mods(), initial_mods(), initial_mods()];
+        let mut refmode = [cfg.map; 3];
+        let stage_of = |obj: usize| match obj {
+            4 => 1usize,
+            5 => 2,
+            _ => 0,
+        };
         for (i, top) in trace.ops.iter().enumerate() {
             env.cur_op = i;
             last_t = top.t.max(last_t);
@@ -1123,6 +1194,12 @@ impl Scenario for Chaos {
                 Op::Ev { key, st } => {
                     let e = KeyEvent::new(ALL_KEYS[key as usize % NKEYS], STATES[st as usize % 3]);
                     env.cov.hit("event_key_x_state", (key as usize % NKEYS) * 3 + st as usize % 3);
+                    {
+                        let sg = stage_of(obj);
+                        let cell = ((mods_index(&refm[sg]) * 2 + refmode[sg] as usize) * NKEYS + key as usize % NKEYS) * 3 + st as usize % 3;
+                        env.cov.hit("event_stage_mods_x_mode_x_key_x_state", cell);
+                        ref_mods_step(&mut refm[sg], ALL_KEYS[key as usize % NKEYS], STATES[st as usize % 3]);
+                    }
                     let shown = format!("{:?}", e);
                     let r = match obj {
                         4 => kb1.process_keyevent(e),
@@ -1131,11 +1208,14 @@ impl Scenario for Chaos {
                     };
                     h.mix(dk_hash(&r) ^ (shown.len() as u64 & 1) ^ (format!("{:?}", r).len() as u64 & 1));
                 }
-                Op::SetCtrl { map } => match obj {
+                Op::SetCtrl { map } => {
+                    refmode[stage_of(obj)] = map;
+                    match obj {
                     4 => kb1.set_ctrl_handling(hc(map)),
                     5 => kb2.set_ctrl_handling(hc(map)),
                     _ => ed.set_ctrl_handling(hc(map)),
-                },
+                    }
+                }
                 Op::Layout { id } => {
                     if cfg.layout == 255 {
                         ed.change_layout(DynLayout::Recorder { id, log: rec_log.clone() });
@@ -1177,6 +1257,7 @@ impl Scenario for Chaos {
         require_full(cov, "set1_model_ctx_x_byte", &mut out);
         require_full(cov, "set2_model_ctx_x_byte", &mut out);
         require_full(cov, "event_key_x_state", &mut out);
+        require_full(cov, "event_stage_mods_x_mode_x_key_x_state", &mut out);
         require_probes(cov, &mut out);
         out
     }
